@@ -6,9 +6,11 @@ Exactly one thread runs at any time.  Worker threads exist only inside
 alone and yield points only log and advance the clock.
 """
 import hashlib
+import sys
 import threading
 
 EPOCH = 1.0e9
+_TOOL = 4      # sys.monitoring tool id (0-5 are free for tools)
 
 POLICIES = ('random', 'pct', 'fifo', 'lifo', 'rr', 'starve')
 
@@ -49,7 +51,8 @@ class Task:
 
 
 class Sim:
-    def __init__(self, D, policy='random', stall_p=0.0, timed=False, keep_log=False, step_cap=None):
+    def __init__(self, D, policy='random', stall_p=0.0, timed=False, keep_log=False, step_cap=None, line_p=0.0,
+                 trace_prefix=None):
         self.D = D
         self.policy = policy
         self.stall_p = stall_p
@@ -73,6 +76,9 @@ class Sim:
         self.on_event = None         # crash trigger hook: fn(kind) called at every crash-eligible event
         self.starved = 0
         self.sql_errors_in_a_row = {}
+        self.line_p = line_p              # probability of a pre-emption at a source line of the library (sys.settrace)
+        self.trace_prefix = trace_prefix  # only frames whose file lies under this directory are traced
+        self.line_no = 0
         self.foreign_lock = None     # (connection, virtual release time) of a simulated other process
         self._rr_last = -1
         self._alive = 0
@@ -197,6 +203,43 @@ class Sim:
             t.wake_reason = 'timer'
         self._handoff(me)
 
+    # ---- statement-level pre-emption (optional): LINE events of sys.monitoring (PEP 669) inside the library are yield
+    # points.  sys.settrace is not used: it snapshots frame locals, which creates reference cycles (exception -> traceback ->
+    # frame -> locals snapshot -> exception) that keep SQLite connections alive until the cyclic GC runs - measured: the
+    # event-log digest then depended on the history of the process.
+    def _on_line(self, code, lineno):
+        if not code.co_filename.startswith(self.trace_prefix):
+            return sys.monitoring.DISABLE
+        if self.tasks and self.aborting is None and threading.current_thread().name.startswith('sim-w'):
+            self.line_no += 1
+            if self.D.flag('sched', ('line', self.batch, self.line_no), self.line_p):
+                self.stat('line_preemptions')
+                self.yield_point('line:%s:%d' % (code.co_name, lineno), 0.0, crash=False)
+        return None
+
+    def _lines_on(self):
+        mon = getattr(sys, 'monitoring', None)
+        if mon is None or not (self.line_p > 0.0 and self.trace_prefix):
+            return False
+        try:
+            if mon.get_tool(_TOOL) is None:
+                mon.use_tool_id(_TOOL, 'artapsim')
+            mon.register_callback(_TOOL, mon.events.LINE, self._on_line)
+            mon.set_events(_TOOL, mon.events.LINE)
+            return True
+        except Exception:
+            return False
+
+    @staticmethod
+    def _lines_off():
+        mon = getattr(sys, 'monitoring', None)
+        if mon is not None:
+            try:
+                mon.set_events(_TOOL, 0)
+                mon.register_callback(_TOOL, mon.events.LINE, None)
+            except Exception:
+                pass
+
     def block_on_lock(self, deadline):
         """park the current task until a lock release or the deadline; returns 'released'|'timeout'"""
         me = self.cur
@@ -253,6 +296,7 @@ class Sim:
         D = self.D
         self.batch += 1
         self.step = 0
+        self.line_no = 0
         self._sig = hashlib.sha1()
         self._rr_last = -1
         self.join_sem = threading.Semaphore(0)
@@ -312,6 +356,7 @@ class Sim:
             th = threading.Thread(target=body, daemon=True, name='sim-' + name)
             threads.append(th)
         self.tasks = tasks
+        lines = self._lines_on()
         for th in threads:
             th.start()
         try:
@@ -327,6 +372,8 @@ class Sim:
         self.join_sem.acquire()
         for th in threads:
             th.join()
+        if lines:
+            self._lines_off()
         self.cur = 'main'
         self.sigs.append(self._sig.hexdigest()[:12])
         excs = [(tasks[n].idx, tasks[n].exc) for n in self.order if tasks[n].exc is not None]
